@@ -1,8 +1,10 @@
 package node
 
 import (
+	"encoding/json"
 	"fmt"
 	"reflect"
+	"strconv"
 	"strings"
 
 	"github.com/freeconf/yang/meta"
@@ -273,6 +275,12 @@ func toBits(bitDefintions []*meta.Bit, v interface{}) (val.Bits, error) {
 		return toBitsValueHandler(bitDefintions, x)
 	case int64:
 		return toBitsValueHandler(bitDefintions, x)
+	case json.Number: // a number from the JSON reader
+		positions, err := strconv.ParseUint(x.String(), 10, 64)
+		if err != nil {
+			return result, err
+		}
+		return toBits(bitDefintions, positions)
 	default:
 		return result, fmt.Errorf("could not coerce %v (of type %T) into UnionList", v, v)
 	}
